@@ -250,9 +250,28 @@ func (r *Run) Violation(signature string, witness any, detail string) {
 	r.mu.Lock()
 	r.violationCnt++
 	if len(r.violations) < MaxViolations {
-		r.violations = append(r.violations, Violation{Signature: signature, Witness: witness, Detail: detail})
+		v := Violation{Signature: signature, Witness: witness, Detail: detail}
+		r.violations = append(r.violations, v)
+		// also append to a side file at once: a later process-fatal event must not lose it
+		if b, err := json.Marshal(v); err == nil {
+			if f, err := os.OpenFile(filepath.Join(r.outDir, "violations-"+r.Stage+".jsonl"), os.O_APPEND|os.O_CREATE|os.O_WRONLY, 0o644); err == nil {
+				f.Write(append(b, '\n'))
+				f.Close()
+			}
+		}
 	}
 	r.mu.Unlock()
+}
+
+// HookFail returns a callback for the in-situ board hook that records a violation (once per
+// distinct message class) instead of panicking.
+func (r *Run) HookFail(signature string) func(msg string) {
+	var n atomic.Int64
+	return func(msg string) {
+		if n.Add(1) <= 3 {
+			r.Violation(signature, map[string]any{"hook": "board.verifCheck", "message": msg}, msg)
+		}
+	}
 }
 
 // Violations returns the number of violations so far.
